@@ -134,6 +134,22 @@ example : restoreTrace rankA (globalOf [rankA, rankB] cfgNoOverride)
 example : restoreTrace rankA (globalOf [rankA, rankRng] cfgNoOverride)
     = [.gatherKeys, .gatherHostnames, .keyBarrier [97]] := by decide
 
+/-! ## Why the per-key barrier must not depend on what the stateful holds -/
+
+/-- key "m" = [109] registered on both ranks; on rank 0 its state dict is empty, on rank 1 it holds a tensor -/
+private def rankHollow : Local := ⟨0, [[109]], [], [([109], [])], 0⟩
+private def rankFull : Local := ⟨1, [[109]], [], [([109], [.tensor])], 0⟩
+
+/-- **Witness (barrier skipped for an empty state dict).** With the "skip the iteration when nothing was flattened"
+variant of the key loop, the rank whose module has no parameters issues no barrier for key "m" while the other rank
+does: the collective sequences differ (the real loop issues the barrier on both, `C12_take_uniform`). -/
+theorem C12_witness_skip_barrier_on_empty :
+    rankHollow.Valid ∧ rankFull.Valid ∧
+    (takeKeyLoopSkipEmpty rankHollow [[109]]).filterMap Ev.op? = [] ∧
+    (takeKeyLoopSkipEmpty rankFull [[109]]).filterMap Ev.op? = [.keyBarrier [109]] ∧
+    (takeKeyLoop rankHollow [[109]]).filterMap Ev.op? = (takeKeyLoop rankFull [[109]]).filterMap Ev.op? := by
+  decide
+
 /-! ## Non-vacuity and the domain remark -/
 
 example : rankA.Valid ∧ rankRng.Valid ∧ (rankRng.rngKeys ++ rankRng.keys).Nodup := by decide
